@@ -203,7 +203,9 @@ def gen_cases(tier, seed):
     # the transitions into and out of it are announced like any other
     for reqs in OWN_STATE_REQUESTS:
         for gap in (0, 1, 2):
-            yield {'kind': 'own-state', 'requests': list(reqs), 'gap': gap, 'plan': [], 'wrap': False}
+            # (the label type of the state machine admits enums and plain strings)
+            for label in ('enum', 'str'):
+                yield {'kind': 'own-state', 'requests': list(reqs), 'gap': gap, 'plan': [], 'wrap': False, 'label': label}
     rng = plans.rng_for(seed, 'c16')
     for name, prog in sorted(_programs(tier).items()):
         n = plans.slots_of(prog)
@@ -355,8 +357,13 @@ def run_own_state(case):
     class AppState(enum.Enum):
         HELD = 'held'
 
+    HELD = AppState.HELD if case.get('label', 'enum') == 'enum' else 'held'
+
+    def text(label):
+        return label.value if isinstance(label, enum.Enum) else label
+
     class Held(process_states.State):
-        LABEL = AppState.HELD
+        LABEL = HELD
         ALLOWED = {plumpy.ProcessState.RUNNING, plumpy.ProcessState.KILLED, plumpy.ProcessState.EXCEPTED}
 
         def __init__(self, process, run_fn):
@@ -368,17 +375,17 @@ def run_own_state(case):
             return self.create_state(plumpy.ProcessState.RUNNING, self.run_fn)
 
     class Created(process_states.Created):
-        ALLOWED = process_states.Created.ALLOWED | {AppState.HELD}
+        ALLOWED = process_states.Created.ALLOWED | {HELD}
 
         def execute(self):
-            return self.create_state(AppState.HELD, self.run_fn)
+            return self.create_state(HELD, self.run_fn)
 
     class HeldProcess(plumpy.Process):
         @classmethod
         def get_state_classes(cls):
             states = dict(super().get_state_classes())
             states[plumpy.ProcessState.CREATED] = Created
-            states[AppState.HELD] = Held
+            states[HELD] = Held
             return states
 
         async def run(self):
@@ -419,7 +426,7 @@ def run_own_state(case):
         proc = HeldProcess(pid=4242, communicator=comm, loop=loop)
         entered = [[None, 'created']]
         proc.add_state_event_callback(state_machine.StateEventHook.ENTERED_STATE,
-                                      lambda machine, _hook, from_state: entered.append([from_state.LABEL.value, machine.state.value]))
+                                      lambda machine, _hook, from_state: entered.append([text(from_state.LABEL), text(machine.state)]))
 
         async def scenario():
             task = asyncio.ensure_future(proc.step_until_terminated())
@@ -444,7 +451,10 @@ def run_own_state(case):
         incon = loop.run_until_complete(asyncio.wait_for(scenario(), 5))
         expected = [[4242, 'state_changed.%s.%s' % tuple(pair)] for pair in entered]
         obs['own_state_transitions'] = sum(1 for a, b in entered if 'held' in (a, b))
-        if incon is None and comm.announced != expected:
+        if incon is None and proc.state != (plumpy.ProcessState.KILLED if 'kill' in case['requests'] else plumpy.ProcessState.FINISHED):
+            viol.append(V('own-state-run-differs', 'own-state-run-differs:%s' % text(proc.state), 'with a communicator attached the process with a state class of its own ended %s (%r); '
+                          'announcing the transitions must not disturb the process (requests %s)' % (text(proc.state), proc.exception() if proc.state == plumpy.ProcessState.EXCEPTED else None, case['requests'])))
+        elif incon is None and comm.announced != expected:
             missing = [e[1] for e in expected if e not in comm.announced]
             viol.append(V('announcements', 'announcements:own-state:%s' % ('missing' if missing else 'other'), 'a process with a state class of its own went through %s, '
                           'announced %s (missing %s; requests %s)' % (entered, [a[1] for a in comm.announced], missing, case['requests'])))
@@ -453,7 +463,7 @@ def run_own_state(case):
     finally:
         asyncio.set_event_loop(None)
         loop.close()
-    return {'viol': viol, 'obs': obs, 'inconclusive': incon, 'key': ['own-state', case['requests'], case['gap']], 'nontrivial': obs['own_state_transitions'] >= 2,
+    return {'viol': viol, 'obs': obs, 'inconclusive': incon, 'key': ['own-state', case['requests'], case['gap'], case.get('label')], 'nontrivial': obs['own_state_transitions'] >= 2,
             'sample': {'program': 'own-state', 'requests': case['requests']}}
 
 
